@@ -138,6 +138,11 @@ impl<P: MNT6Config> MNT6<P> {
     }
 
     pub fn ate_miller_loop(p: &G1Prepared<P>, q: &G2Prepared<P>) -> Fp6<P::Fp6Config> {
+        // e(P, 0) = 1
+        if q.is_zero() {
+            return <Fp6<P::Fp6Config>>::one();
+        }
+
         let l1_coeff = Fp3::new(p.x, P::Fp::zero(), P::Fp::zero()) - &q.x_over_twist;
 
         let mut f = <Fp6<P::Fp6Config>>::one();
